@@ -20,6 +20,10 @@ for pid in sorted(props.PROPS):
         technique=cfg.get('technique', 'contract-based deductive verification: sidecar contracts on the real functions, VCs generated from the AST, discharged by z3/cvc5'),
     ))
 na = [dict(property_id=p, reason=r) for p, r in sorted(props.NOT_APPLICABLE.items())]
+for pid, cfg in sorted(props.PROPS.items()):
+    if cfg.get('claimed', True) is False:
+        na.append(dict(property_id=pid, reason=cfg.get('reason', 'not decided yet: only a bounded stand-in exists')))
+na.sort(key=lambda d: d['property_id'])
 m = dict(
     version=1,
     setup_cmd='python3-vt setup_check.py',
